@@ -177,7 +177,7 @@ def r_bind(c):
         r = m.resolve_method(TOIL, mm)
         if r is None:
             continue
-        fd = r[1]
+        fd = m.inlined(r[1])     # helpers that build part of the expression are seen through
         used = {}
         for call in ast.walk(fd):
             if isinstance(call, ast.Call) and ast.unparse(call.func) in (
@@ -235,8 +235,8 @@ def r_sibling(c):
                     and ast.unparse(iff.test.args[1]) in ("INT_CLASSES", "NormalizedSlice"):
                 ty = ast.unparse(iff.test.args[1])
                 iv = iff.test.args[0].id
-                import copy
-                body = copy.deepcopy(iff.body)
+                from pta.model import _cp
+                body = _cp(iff.body)
                 for s_ in body:
                     for nm in ast.walk(s_):
                         if isinstance(nm, ast.Name) and nm.id == iv:
@@ -452,35 +452,99 @@ def r_einsum_broadcast_first(c):
     (otherwise a contracted index that is 1-long in one operand is read out of
     bounds there, or bounds the whole reduction by 1)"""
     m = c.model
-    from pta.pat import find
-    fd = m.resolve_method(TOIL, "map_einsum")[1]
+    from pta.paths import Walker, precedes
+    fd = m.inlined(m.resolve_method(TOIL, "map_einsum")[1])
     where = m.loc(m.module_of(fd), fd)
+
+    def is_T(n):
+        return isinstance(n, ast.Call) and ast.unparse(n.func).endswith(
+            "are_shape_components_equal") and len(n.args) == 2 and not any(
+            isinstance(a, ast.Constant) for a in n.args)
+
+    def classify(n):
+        if is_T(n):
+            return "T"
+        if isinstance(n, ast.Call) and isinstance(n.func, ast.Attribute):
+            if n.func.attr == "append" and len(n.args) == 1:
+                a = n.args[0]
+                if isinstance(a, ast.IfExp) and any(
+                        isinstance(v, ast.Constant) and v.value == 0
+                        for v in (a.body, a.orelse)):
+                    return "M"      # 0 or an index variable, by a flag
+                return "Z" if isinstance(a, ast.Constant) and a.value == 0 else "A"
+            if n.func.attr in ("update", "setdefault"):
+                return "B"
+        if isinstance(n, ast.Call) and ast.unparse(n.func) == "isinstance" \
+                and "Einsum" in ast.unparse(n.args[1]):
+            return "K"
+        if isinstance(n, ast.Assign) and any(isinstance(t, ast.Subscript) for t in n.targets):
+            return "B"
+        return None
+    # the per-axis loop: the innermost loop that holds the broadcast test
     loops = [l for l in ast.walk(fd) if isinstance(l, ast.For)
-             and ast.unparse(l.iter).startswith("enumerate(") and isinstance(l._parent, ast.For)]
-    ok = False
-    for l in loops:
-        if not (isinstance(l.target, ast.Tuple) and len(l.target.elts) == 2):
-            continue
-        ia, ax = (t.id for t in l.target.elts)
-        first = l.body[0]
-        got = find(ast.Module(body=[first], type_ignores=[]), f"""
-if not are_shape_components_equal($arg.shape[{ia}], $lens[{ax}]):
-    assert are_shape_components_equal($arg.shape[{ia}], 1)
-    $sub.append(0)
-    continue
-""")
-        if got and got[0]["@node"] is first:
-            # the rest of the body distinguishes the descriptor kinds
-            rest = l.body[1:]
-            ok = any(isinstance(s_, ast.If) and "EinsumElementwiseAxis" in ast.unparse(s_.test)
-                     for s_ in rest) and not any(
-                isinstance(x, ast.Continue) for s_ in rest for x in ast.walk(s_))
-    c.check(ok, "R02-BIND", "ToIndexLambdaMixin.map_einsum",
+             and any(is_T(x) for x in ast.walk(l))
+             and not any(isinstance(x, ast.For) and x is not l and any(
+                 is_T(y) for y in ast.walk(x)) for x in ast.walk(l))]
+    if len(loops) != 1:
+        raise AnalysisError("anchor vanished: per-axis loop with the broadcast test "
+                            "are_shape_components_equal(<length>, <einsum length>) in map_einsum")
+    l = loops[0]
+    paths = {(tuple(x for x in e if x in "TZAKBM"), x_) for (e, x_)
+             in Walker(classify).block(l.body) if x_ != "raise"}
+    seqs = [e for e, _ in paths]
+    mixed = any("M" in e for e in seqs)
+    if not mixed and (not any("Z" in e for e in seqs) or not any("A" in e for e in seqs)):
+        raise AnalysisError("anchor vanished: subscript appends (0 for a broadcast axis, an "
+                            "index variable otherwise) in the per-axis loop of map_einsum")
+    bad = []
+    if mixed:
+        # the decision is carried in a flag and applied per append: then whatever
+        # else the iteration records must be guarded by that flag (or the test) too
+        flags = {t.id for a in ast.walk(l) if isinstance(a, ast.Assign)
+                 and any(is_T(x) for x in ast.walk(a.value))
+                 for t in a.targets if isinstance(t, ast.Name)}
+        for b in ast.walk(l):
+            if classify(b) != "B":
+                continue
+            q, guarded = b, False
+            while q is not l:
+                q = q._parent
+                if isinstance(q, (ast.If, ast.IfExp)) and any(
+                        is_T(x) or (isinstance(x, ast.Name) and x.id in flags)
+                        for x in ast.walk(q.test)):
+                    guarded = True
+            if not guarded:
+                bad.append(f"`{m.frag(b, 50)}` is recorded whether or not the axis is a "
+                           "broadcast axis (the decision is applied to the subscript only)")
+    for then, what in (("K", "the descriptor kind is tested"),
+                       ("A", "an index variable is appended"),
+                       ("B", "a binding or reduction bound is recorded"),
+                       ("Z", "subscript 0 is appended")):
+        if precedes(paths, "T", then):
+            bad.append(f"{what} on a path that has not evaluated the broadcast test")
+    for e in seqs:
+        if "Z" in e:
+            k = e.index("Z")
+            if any(x in "AKB" for x in e[k + 1:]) or "K" in e[:k]:
+                bad.append("the broadcast arm (subscript 0) also tests the descriptor kind, "
+                           "appends an index variable or records a bound")
+                break
+    # polarity, where the test is the condition of an if
+    for iff in ast.walk(l):
+        if isinstance(iff, ast.If):
+            t = iff.test
+            neg = isinstance(t, ast.UnaryOp) and isinstance(t.op, ast.Not)
+            if is_T(t.operand if neg else t):
+                zarm = iff.body if neg else iff.orelse
+                oarm = iff.orelse if neg else iff.body
+                if not any(classify(x) == "Z" for s_ in zarm for x in ast.walk(s_)) or any(
+                        classify(x) == "Z" for s_ in oarm for x in ast.walk(s_)):
+                    bad.append("subscript 0 is appended on the arm where the lengths are "
+                               "EQUAL")
+    c.check(not bad, "R02-BIND", "ToIndexLambdaMixin.map_einsum",
             "broadcast-axes-decided-before-the-descriptor-kind", where,
-            "the per-axis loop does not begin with the unconditional broadcast test "
-            "(length differs from the einsum's length for this descriptor -> it is 1 -> "
-            "subscript 0, continue): broadcasting is applied to some descriptor kinds only, "
-            "or a reduction bound is taken from a broadcast axis")
+            "in the per-axis loop " + "; ".join(bad) + ": broadcasting is applied to some "
+            "descriptor kinds only, or a reduction bound is taken from a broadcast axis")
 
 
 SPEC = Spec(
